@@ -151,16 +151,31 @@ func tokenSatisfiesS(s string) bool {
 	return true
 }
 
-func conditionS(toks []tok) (holds bool, dollars int) {
-	holds = true
+// Condition S1 (weaker): every token either satisfies S or contains no
+// parenthesis at all and does not end in '$' (e.g. the replacement pattern
+// "$1@$3" of the shipped configuration). Such tokens are never touched by
+// macro expansion and, used as macro values, cannot form "$(" at a junction
+// (the text before a reference never ends in '$' inside an S token). Under S1
+// no argument of the result may contain "$(".
+//
+// level 2 = S, 1 = S1 only, 0 = neither (macro clause not judged).
+func conditionS(toks []tok) (level int, dollars int) {
+	level = 2
 	for _, t := range toks {
 		if strings.IndexByte(t.text, '$') < 0 {
 			continue
 		}
 		dollars++
-		if !tokenSatisfiesS(t.text) {
-			holds = false
+		if tokenSatisfiesS(t.text) {
+			continue
 		}
+		if !strings.ContainsAny(t.text, "()") && !strings.HasSuffix(t.text, "$") {
+			if level > 1 {
+				level = 1
+			}
+			continue
+		}
+		level = 0
 	}
 	return
 }
